@@ -155,7 +155,11 @@ def replay_macros(ctx, tree, behaviours, trace_to=None):
         env = dict(os.environ)
         if trace_to and i % trace_to[1] == 0:
             env["CHIBICC_VERIF_TRACE"] = "%s/m%d_%s.trace" % (trace_to[0], i, variant)
-        p = subprocess.run([cc, "-E"] + opts + [f], capture_output=True, text=True, timeout=20, env=env)
+        # a loaded machine can starve a 10 ms process for many seconds: a first timeout is repeated with a
+        # generous limit before anything is concluded; only a repeated one is a hang (reported, not exit 2)
+        p = vt.run_limited([cc, "-E"] + opts + [f], timeout=30, env=env)
+        if p.returncode == -999:
+            p = vt.run_limited([cc, "-E"] + opts + [f], timeout=300, env=env)
         got = [" ".join(l.split()) for l in p.stdout.splitlines() if l.strip() and not l.startswith("#")]
         os.unlink(f)
         return i, b, variant, opts, txt, exp, p.returncode, got, p.stderr[-300:]
@@ -164,7 +168,10 @@ def replay_macros(ctx, tree, behaviours, trace_to=None):
     for i, b, variant, opts, txt, exp, rc, got, err in vt.pmap(one, work):
         ops = b["hist"] + [b["op"]]
         ctx.note_case("macro:%s:%s:%s" % (variant, b["h"], ops), nontrivial=len(ops) >= 2)
-        if rc != 0:
+        if rc == -999:
+            ctx.report("macro:%s:hang" % variant, "chibicc -E does not terminate (300 s) on history %s" % (ops,),
+                       case=dict(kind="macro", variant=variant, beh=b, opts=opts, text=txt))
+        elif rc != 0:
             ctx.report("macro:%s:failed" % variant, "chibicc -E rc=%s on history %s: %s" % (rc, ops, err),
                        case=dict(kind="macro", variant=variant, beh=b, opts=opts, text=txt))
         elif got != exp:
@@ -177,6 +184,15 @@ def replay_macros(ctx, tree, behaviours, trace_to=None):
 
 # ------------------------------------------- running the compiler under test, thousands of times
 def run_guarded(cmd, timeout=20, mem_gb=4, env=None):
+    """see run_guarded1; a first timeout is repeated once with a generous limit, because a loaded machine can
+    starve a 10 ms process for many seconds and a timeout is judged as a hang by the callers"""
+    p = run_guarded1(cmd, timeout, mem_gb, env)
+    if p.returncode == -999 and timeout < 300:
+        p = run_guarded1(cmd, 300, mem_gb, env)
+    return p
+
+
+def run_guarded1(cmd, timeout=20, mem_gb=4, env=None):
     """The protections of vt.run_limited (own process group killed as a whole on timeout - the driver's cc1 child
     dies with it -, RLIMIT_AS and RLIMIT_CPU) without a preexec_fn: the limits are set by prlimit(1), the session
     by start_new_session, so that Python can vfork.  With the check's heap a preexec_fn fork costs ~30 ms per
